@@ -202,8 +202,10 @@ def _unq(node):
 
 
 class FileScan(ast.NodeVisitor):
-    def __init__(self, rel, tree, pk_classes, referenced=(), classes=None):
+    def __init__(self, rel, tree, pk_classes, referenced=(), classes=None, refs_by_file=None):
         self.classes = classes or {}
+        self.refs_by_file = refs_by_file or {}
+        self._calls = None
         self.rel = rel
         self.referenced = referenced
         self.tree = tree
@@ -412,7 +414,160 @@ class FileScan(ast.NodeVisitor):
             loc = self.resolve_local(e)
             if loc is not None:
                 return loc
+            flow = self.param_flow(e, depth)
+            if flow is not None:
+                return flow
         return [self.atom(e)]
+
+    # ---------------------------------------------------------------- parameters of private helpers
+    def index_calls(self):
+        """name -> [(call node, scope, fnodes, handlers)] for every call `f(...)`, `self.f(...)`, `cls.f(...)`,
+        `Class.f(...)` in this module, and the number of *other* occurrences of each identifier."""
+        if self._calls is not None:
+            return
+        self._calls, self._other_uses, self._defs = {}, {}, {}
+        outer = self
+
+        class V(ast.NodeVisitor):
+            def __init__(v):
+                v.scope, v.fnodes, v.handlers, v.classes = [], [], [], []
+
+            def visit_ClassDef(v, n):
+                v.scope.append(n.name)
+                v.classes.append(n.name)
+                v.generic_visit(n)
+                v.classes.pop()
+                v.scope.pop()
+
+            def visit_FunctionDef(v, n):
+                outer._defs.setdefault(n.name, []).append((n, list(v.classes)))
+                for d in n.decorator_list:
+                    v.visit(d)
+                v.scope.append(n.name)
+                v.fnodes.append(n)
+                saved, v.handlers = v.handlers, []
+                for st in n.body:
+                    v.visit(st)
+                for dflt in list(n.args.defaults) + [d for d in n.args.kw_defaults if d is not None]:
+                    v.visit(dflt)
+                v.handlers = saved
+                v.fnodes.pop()
+                v.scope.pop()
+
+            visit_AsyncFunctionDef = visit_FunctionDef
+
+            def visit_ExceptHandler(v, n):
+                if n.type is None:
+                    classes = ['BaseException']
+                elif isinstance(n.type, ast.Tuple):
+                    classes = [_unq(x) for x in n.type.elts]
+                else:
+                    classes = [_unq(n.type)]
+                classes = [c.split('.')[-1] if c.split('.')[0] in ('exceptions', 'kmip') else c for c in classes]
+                v.handlers.append((n.name, classes))
+                v.generic_visit(n)
+                v.handlers.pop()
+
+            def visit_Call(v, n):
+                f = n.func
+                name = None
+                if isinstance(f, ast.Name):
+                    name = f.id
+                elif isinstance(f, ast.Attribute) and isinstance(f.value, ast.Name) and \
+                        (f.value.id in ('self', 'cls') or f.value.id in outer.classes):
+                    name = f.attr
+                if name is not None:
+                    outer._calls.setdefault(name, []).append((n, list(v.scope), list(v.fnodes), list(v.handlers)))
+                    # the callee expression itself is accounted for; visit the rest
+                    if isinstance(f, ast.Attribute):
+                        v.visit(f.value)
+                    for a in n.args:
+                        v.visit(a)
+                    for k in n.keywords:
+                        v.visit(k.value)
+                    return
+                v.generic_visit(n)
+
+            def visit_Name(v, n):
+                outer._other_uses[n.id] = outer._other_uses.get(n.id, 0) + 1
+
+            def visit_Attribute(v, n):
+                outer._other_uses[n.attr] = outer._other_uses.get(n.attr, 0) + 1
+                v.generic_visit(n)
+
+        V().visit(self.tree)
+
+    def param_flow(self, name_node, depth):
+        """A parameter of a private helper formatted into a message: classify the argument at EVERY call site of
+        the helper.  Fail closed (None -> the caller falls through to Unknown) when the helper is not private, is
+        defined twice, is decorated, escapes (any use that is not a direct call, or any use in another file), takes
+        */** arguments, or a call site passes something that is not classified safe."""
+        if not self.fnodes or depth > 4:
+            return None
+        fn = self.fnodes[-1]
+        a = fn.args
+        params = [x.arg for x in a.posonlyargs + a.args]
+        if name_node.id not in params + [x.arg for x in a.kwonlyargs]:
+            return None
+        fname = fn.name
+        if not fname.startswith('_') or fname.startswith('__') or fn.decorator_list or a.vararg or a.kwarg:
+            return None
+        self.index_calls()
+        defs = self._defs.get(fname, [])
+        if len(defs) != 1 or defs[0][0] is not fn:
+            return None
+        is_method = bool(defs[0][1]) and params[:1] and params[0] in ('self', 'cls')
+        if self._other_uses.get(fname, 0) != 0:
+            return None                                   # alias / passed around / getattr
+        if any(fname in refs for rel, refs in self.refs_by_file.items() if rel != self.rel):
+            return None                                   # used from another module
+        calls = self._calls.get(fname, [])
+        if not calls:
+            return None
+        formal = params[1:] if is_method else params
+        defaults = dict(zip(reversed(a.posonlyargs + a.args), reversed(a.defaults)))
+        defaults = {k.arg: v for k, v in defaults.items()}
+        defaults.update({k.arg: v for k, v in zip(a.kwonlyargs, a.kw_defaults) if v is not None})
+        results = []
+        for call, scope, fnodes, handlers in calls:
+            if any(isinstance(x, ast.Starred) for x in call.args) or any(k.arg is None for k in call.keywords):
+                return None
+            if isinstance(call.func, ast.Name) == bool(is_method):
+                return None                               # method called as a function or the reverse
+            actual = None
+            if name_node.id in formal and formal.index(name_node.id) < len(call.args):
+                actual = call.args[formal.index(name_node.id)]
+            for k in call.keywords:
+                if k.arg == name_node.id:
+                    actual = k.value
+            if actual is None:
+                actual = defaults.get(name_node.id)
+            if actual is None:
+                return None
+            saved = (self.scope, self.fnodes, self.handlers)
+            self.scope, self.fnodes, self.handlers = scope, fnodes, handlers
+            try:
+                ps = self.parts(actual, depth + 1)
+            finally:
+                self.scope, self.fnodes, self.handlers = saved
+            if len(ps) != 1 or ps[0][0] in ('SUnknown', 'SSecret', 'STemplate'):
+                return [('SUnknown', 'parameter %s of %s: call at line %d passes %s' % (name_node.id, fname, call.lineno, _unq(actual)))]
+            results.append(ps[0])
+        kinds = {r[0] for r in results}
+        txt = 'parameter %s of %s (%d call sites)' % (name_node.id, fname, len(results))
+        if kinds == {'SLit'}:
+            if all(len(r[1]) <= 40 for r in results):
+                return [('SEnumName', txt)]               # one of a few literal words chosen by the callers
+            return None
+        if len(kinds) == 1:
+            r = results[0]
+            return [r if r[0] == 'SExc' and all(x[1] == r[1] for x in results) else
+                    (('SUnknown', txt) if r[0] == 'SExc' else (r[0], txt))]
+        if kinds <= {'SLit', 'SEnumName', 'SOpName', 'STypeName'} and all(r[0] != 'SLit' or len(r[1]) <= 40 for r in results):
+            return [('SEnumName', txt)]
+        if 'SExc' in kinds or 'SWire' in kinds:
+            return [('SUnknown', txt + ': mixed classes')]
+        return [('SClientText', txt)]                     # every call site passes non-secret text, of different kinds
 
     def stringy(self, e):
         """Is this `+` a string concatenation?  (one operand is visibly a string)"""
@@ -719,16 +874,21 @@ def scan(repo):
                             m.add('const:' + x.name)
                 m.update(t.id for x in node.body if isinstance(x, ast.Assign) for t in x.targets if isinstance(t, ast.Name))
     referenced = set()
+    refs_by_file = {}
     for rel in files:
+        mine = refs_by_file.setdefault(rel, set())
         for node in ast.walk(trees[rel]):
             if isinstance(node, ast.Name) and isinstance(node.ctx, ast.Load):
-                referenced.add(node.id)
+                mine.add(node.id)
             elif isinstance(node, ast.Attribute):
-                referenced.add(node.attr)
+                mine.add(node.attr)
             elif isinstance(node, ast.alias):
-                referenced.add(node.name.split('.')[-1])
+                mine.add(node.name.split('.')[-1])
+            elif isinstance(node, ast.Constant) and isinstance(node.value, str) and node.value.isidentifier():
+                mine.add(node.value)        # getattr(obj, "_helper") and the like
+        referenced |= mine
     for rel in files:
-        fs = FileScan(rel, trees[rel], set(pk), referenced, classes)
+        fs = FileScan(rel, trees[rel], set(pk), referenced, classes, refs_by_file)
         fs.visit(trees[rel])
         sites += fs.sites
     return files, pk, sites
